@@ -69,8 +69,13 @@ def run(ctx):
     conv = ex.conventions()
     if conv['invalid_counter'] is None or not conv['die_uses_errorcode'] or not conv['invalid_counter_on_max_instance']:
         ctx.report('out-of-range-exit-convention', f'conventions read: {conv}', {'kind': 'clang_delta-conv', 'conv': conv})
-    if not conv['check_counter_validity_ok']:
-        ctx.report('checkCounterValidity-lets-out-of-range-through', f'Transformation::checkCounterValidity mishandles {conv["check_counter_validity_gap"]} (ToCounter -1 = not given)',
+    ctx.notes['checkCounterValidity_evaluated'] = conv.get('check_counter_validity_how')
+    if not conv['check_counter_validity_ok'] and conv.get('check_counter_validity_how') == 'unreadable':
+        # neither compilable in the stub nor readable: the tie is broken, but that is not a failing input
+        ctx.report('broken:checkCounterValidity-unreadable', f'Transformation::checkCounterValidity can neither be compiled in the stub class nor read: {conv["check_counter_validity_gap"]}'[:380],
+                   {'kind': 'clang_delta-conv', 'function': 'Transformation::checkCounterValidity', 'broken': 'correspondence'}, nofail=True)
+    elif not conv['check_counter_validity_ok']:
+        ctx.report('checkCounterValidity-lets-out-of-range-through', f'Transformation::checkCounterValidity mishandles {conv["check_counter_validity_gap"]} (ToCounter -1 = not given; evaluated: {conv.get("check_counter_validity_how")})',
                    {'kind': 'clang_delta-conv', 'function': 'Transformation::checkCounterValidity', 'values': conv['check_counter_validity_gap']})
     if not conv['query_returns_before_output']:
         ctx.report('query-opens-the-output', 'the query path (TransformationManager::verify, then doTransformation up to the QueryInstanceOnly return) opens a file for writing: --query-instances with --output creates or truncates that file',
